@@ -101,6 +101,38 @@ func reuseOps(m1, k1, m2, k2 string) []sop {
 	}}
 }
 
+// feedBackOps: what an accessor of the packet returns is handed back to a
+// setter of the same packet - whole, and trimmed to a sub-slice (programs
+// normalise a value in place: SetX(bytes.TrimSpace(p.X()))). The field
+// takes that value; nothing else changes, also when the fields are set
+// again later.
+func feedBackOps(setter, key, getter string) []sop {
+	get := func(q any) []byte {
+		out := reflect.ValueOf(q).MethodByName(getter).Call(nil)
+		b, _ := out[0].Interface().([]byte)
+		return b
+	}
+	set := func(q any, v []byte) {
+		reflect.ValueOf(q).MethodByName(setter).Call([]reflect.Value{reflect.ValueOf(v)})
+	}
+	whole := sop{Name: fmt.Sprintf("%s(%s())", setter, getter),
+		Call:  func(q any) { set(q, get(q)) },
+		Model: func(m KV) { m[key] = m[getter] }}
+	part := sop{Name: fmt.Sprintf("%s(%s()[1:])", setter, getter),
+		Call: func(q any) {
+			if v := get(q); len(v) > 1 {
+				set(q, v[1:])
+			}
+		},
+		Model: func(m KV) {
+			// rendered as "bytes:<hex>": drop the first byte when there are at least two
+			if v := m[getter]; strings.HasPrefix(v, "bytes:") && len(v) >= len("bytes:")+4 {
+				m[key] = "bytes:" + v[len("bytes:")+2:]
+			}
+		}}
+	return []sop{whole, part}
+}
+
 func withModel(ops []sop, extra func(i int, m KV)) []sop {
 	for i := range ops {
 		i := i
@@ -164,7 +196,17 @@ func alphabet(name string) []sop {
 	case "Connect":
 		add(withModel(setOps("SetCleanStart", "CleanStart", 1, bools...), func(i int, m KV) { m["HasFlag(1)"] = fl(i == 1) })...)
 		add(setOps("SetProtocolVersion", "ProtocolVersion", -1, uint8(5), uint8(4), uint8(0))...)
-		add(setOps("SetProtocolName", "ProtocolName", -1, "MQTT", "", "X")...)
+		protoNames := []any{"MQTT", "", "X", "mqtt", "Mqtt"}
+		for _, tok := range Mined.Strings {
+			if len(protoNames) < 14 && strings.EqualFold(tok, "MQTT") && tok != "MQTT" && tok != "mqtt" && tok != "Mqtt" {
+				protoNames = append(protoNames, tok)
+			}
+		}
+		add(setOps("SetProtocolName", "ProtocolName", -1, protoNames...)...)
+		pwFlag := func(i int, m KV) { m["HasFlag(6)"] = fl(m["Password"] != "" && m["Password"] != "bytes:") }
+		add(feedBackOps("SetAuthData", "AuthData", "Password")...)
+		add(withModel(feedBackOps("SetPassword", "Password", "AuthData"), pwFlag)...)
+		add(withModel(feedBackOps("SetPassword", "Password", "Password"), pwFlag)...)
 		add(setOps("SetClientID", "ClientID", 1, strs...)...)
 		add(setOps("SetKeepAlive", "KeepAlive", 1, u16...)...)
 		add(setOps("SetSessionExpiryInterval", "SessionExpiryInterval", 1, u32...)...)
@@ -289,6 +331,9 @@ func alphabet(name string) []sop {
 		add(setOps("SetContentType", "ContentType", 1, strs...)...)
 		add(setOps("SetPayload", "Payload", 1, bins...)...)
 		add(reuseOps("SetPayload", "Payload", "SetCorrelationData", "CorrelationData")...)
+		add(feedBackOps("SetPayload", "Payload", "CorrelationData")...)
+		add(feedBackOps("SetCorrelationData", "CorrelationData", "Payload")...)
+		add(feedBackOps("SetPayload", "Payload", "Payload")...)
 		add(userPropOps()...)
 		for i, id := range []uint32{1, 268435455, 1} {
 			id := id
